@@ -14,17 +14,17 @@ import (
 // vLog is the no-op logger injected into every component under test.
 type vLog struct{}
 
-func (l vLog) WithComponent(string) logutil.Log                      { return l }
-func (l vLog) Trace(string, ...interface{}) string                   { return "" }
-func (l vLog) Un(string)                                             {}
-func (l vLog) Debugf(string, ...interface{})                         { zzverif.Perturb() }
-func (l vLog) Infof(string, ...interface{})                          {}
-func (l vLog) Warnf(string, ...interface{})                          {}
-func (l vLog) Errorf(string, ...interface{})                         {}
-func (l vLog) Fatalf(string, ...interface{})                         {}
-func (l vLog) ErrWarn(err error, _ string, _ ...interface{}) error   { return err }
-func (l vLog) ErrFatal(err error, _ string, _ ...interface{}) error  { return err }
-func (l vLog) Err(err error, _ string, _ ...interface{}) error       { return err }
+func (l vLog) WithComponent(string) logutil.Log                     { return l }
+func (l vLog) Trace(string, ...interface{}) string                  { return "" }
+func (l vLog) Un(string)                                            {}
+func (l vLog) Debugf(string, ...interface{})                        { zzverif.Perturb() }
+func (l vLog) Infof(string, ...interface{})                         {}
+func (l vLog) Warnf(string, ...interface{})                         {}
+func (l vLog) Errorf(string, ...interface{})                        {}
+func (l vLog) Fatalf(string, ...interface{})                        {}
+func (l vLog) ErrWarn(err error, _ string, _ ...interface{}) error  { return err }
+func (l vLog) ErrFatal(err error, _ string, _ ...interface{}) error { return err }
+func (l vLog) Err(err error, _ string, _ ...interface{}) error      { return err }
 
 // symFilter is an arbitrary pure filter: Accept is an uninterpreted function of
 // (filter id, namespace, name, resourceVersion).
@@ -189,5 +189,5 @@ func vCheckInv(c *_cache, label string) {
 }
 
 // vDefaultLog / vLogFromCtx replace go-logutil's Default / FromContextOrDefault.
-func vDefaultLog() logutil.Log                     { return vLog{} }
+func vDefaultLog() logutil.Log                    { return vLog{} }
 func vLogFromCtx(ctx context.Context) logutil.Log { return vLog{} }
